@@ -72,7 +72,13 @@ def do_run(sid, tier='quick'):
         rc1, out1 = run_demo(os.path.join(d, 'demo.py'), os.path.join(root, 'src'))
         t0 = time.time()
         env = dict(os.environ, VERIF_REPO_SRC=os.path.join(root, 'src'))
-        rc2, out2 = sh([os.path.join(VERIF, 'check'), pid, '--tier', tier], env=env, cwd=VERIF, timeout=7200)
+        ev = os.path.join(VERIF, 'evidence', pid + '.json')
+        saved = open(ev).read() if os.path.exists(ev) else None      # evidence must describe runs on the unchanged tree only
+        try:
+            rc2, out2 = sh([os.path.join(VERIF, 'check'), pid, '--tier', tier], env=env, cwd=VERIF, timeout=7200)
+        finally:
+            if saved is not None:
+                open(ev, 'w').write(saved)
         wall = time.time() - t0
     finally:
         shutil.rmtree(root, ignore_errors=True)
